@@ -526,10 +526,12 @@ func runC05Concurrent(r *mon.Run, stream uint64) {
 
 func runC05(r *mon.Run, replay string) {
 	r.Rule("histories interleaving pool submissions (fresh, dependent/ephemeral, stale-basis on ancestors or sibling forks, conflicting) with blocks that confirm, ignore or double-spend pooled transactions, reorgs to longer forks, and blocks mined by coreutils.MineBlock from the pool; after every step the reported v1-then-v2 pool sequence is validated transaction by transaction by core/consensus against the pure tip ledger, mined blocks are labelled by the pure oracle and must be adopted, and every accepted id that disappeared must be confirmed, have an input (or pooled ancestor's input) spent/reverted by a block applied or reverted in that step, or be invalid on the new tip+pool under the oracle; plus MineBlock racing with submissions under the race detector")
-	r.Assume("pool-full eviction is not reached by these workloads (pool weight stays far below 10 block weights)")
+	r.Assume("pool-full eviction is exercised only in the dedicated scenario (independent ~0.9 MB transactions with distinct fee rates)")
 	if st, ok := replayStream(replay); ok {
 		if st >= 59000 {
 			runC05Concurrent(r, st)
+		} else if st >= 58000 {
+			runC05PoolFull(r, st)
 		} else {
 			runC05History(r, st)
 		}
@@ -537,9 +539,131 @@ func runC05(r *mon.Run, replay string) {
 	}
 	parallel(r.Pick(300, 5000), func(i int) { runC05History(r, uint64(50000+i)) })
 	parallel(r.Pick(24, 300), func(i int) { runC05Concurrent(r, uint64(59000+i)) })
+	parallel(r.Pick(2, 24), func(i int) { runC05PoolFull(r, uint64(58000+i)) })
+	r.Floor("poolfull_evictions_observed", 1)
 	r.Floor("pool_audits", 1000)
 	r.Floor("blocks_mined_from_pool", 50)
 	r.Floor("reorgs_under_pool", 50)
 	r.Floor("retention:confirmed", 50)
 	r.Floor("concurrent_mined_blocks_checked", 20)
+}
+
+// runC05PoolFull fills the pool beyond ten block weights with independent,
+// differently priced transactions: what remains must still be a valid
+// continuation, stay below the limit, and only cheaper transactions may have
+// been evicted.
+func runC05PoolFull(r *mon.Run, stream uint64) {
+	rng := r.RNG(stream)
+	p := chainlab.RandomParams("v2only", rng)
+	env := chainlab.NewEnv(p)
+	t := chainlab.NewTree(env, rng)
+	tip := t.Root
+	for i := 0; i < 8; i++ {
+		tip = t.ExtendEmpty(tip, zeroT)
+	}
+	node, err := chainlab.NewTestNode(env, nil)
+	if err != nil {
+		r.Inconclusive(err.Error())
+		return
+	}
+	cm := node.CM
+	if err := cm.AddBlocks(chainlab.Blocks(tip.PathFromGenesis())); err != nil {
+		r.Inconclusive(err.Error())
+		return
+	}
+	cs := c05Case{Stream: stream, Params: p}
+	type sub struct {
+		id   types.TransactionID
+		rate types.Currency // fee per weight unit
+	}
+	var subs []sub
+	prev := map[types.TransactionID]bool{}
+	b := tip.L.NewBuilder(rng)
+	b.EphFloor = 1 << 30 // confirmed inputs only: the transactions must be independent
+	maxW := tip.L.State.MaxBlockWeight() * 10
+	data := make([]byte, 1_800_000)
+	for i := 0; i < 30; i++ {
+		// one big, independent transaction per confirmed output
+		var txn types.V2Transaction
+		ok := false
+		for _, a := range env.Actors {
+			before := len(b.V2Txns)
+			if b.V2Spend(a, 0) && len(b.V2Txns) > before {
+				txn = b.V2Txns[len(b.V2Txns)-1].DeepCopy()
+				ok = true
+				break
+			}
+		}
+		if !ok {
+			break
+		}
+		// re-price and bloat it: fee taken from the first output
+		fee := types.Siacoins(uint32(1 + rng.IntN(900)))
+		if len(txn.SiacoinOutputs) == 0 || txn.SiacoinOutputs[0].Value.Cmp(fee.Add(types.Siacoins(1))) <= 0 {
+			continue
+		}
+		txn.SiacoinOutputs[0].Value = txn.SiacoinOutputs[0].Value.Sub(fee)
+		txn.MinerFee = txn.MinerFee.Add(fee)
+		data[0], data[1] = byte(i), byte(stream)
+		txn.ArbitraryData = append([]byte(nil), data...)
+		b.ResignV2(&txn)
+		w := tip.L.State.V2TransactionWeight(txn)
+		if _, err := cm.AddV2PoolTransactions(tip.L.State.Index, []types.V2Transaction{txn}); err != nil {
+			r.Count("poolfull_submissions_rejected", 1)
+			if debugOn {
+				fmt.Println("DEBUG poolfull reject:", err)
+			}
+			continue
+		}
+		subs = append(subs, sub{txn.ID(), txn.MinerFee.Div64(w)})
+		pool := snapPool(cm)
+		var total uint64
+		for _, x := range pool.v2 {
+			total += tip.L.State.V2TransactionWeight(x)
+		}
+		r.Count("poolfull_audits", 1)
+		if total >= maxW {
+			r.Violation("pool-over-limit", fmt.Sprintf("reported pool weighs %d >= %d (ten block weights)", total, maxW), cs, nil)
+			return
+		}
+		if _, ok := tip.L.PoolBuilder(rng, pool.v1, pool.v2); !ok {
+			r.Violation("pool-not-valid-continuation:full", "the pool is not a valid continuation of the tip after eviction", cs, nil)
+			return
+		}
+		// eviction order, per eviction event: among the transactions that were
+		// pooled before this step (plus the newcomer), nothing that survived may
+		// be cheaper than something that was evicted in this step
+		var minKept, maxGone *types.Currency
+		gone := 0
+		for i := range subs {
+			s := subs[i]
+			if !prev[s.id] && s.id != txn.ID() {
+				continue // evicted in an earlier step
+			}
+			if _, in := pool.ids[s.id]; in {
+				if minKept == nil || s.rate.Cmp(*minKept) < 0 {
+					minKept = &subs[i].rate
+				}
+			} else {
+				gone++
+				if maxGone == nil || s.rate.Cmp(*maxGone) > 0 {
+					maxGone = &subs[i].rate
+				}
+			}
+		}
+		prev = map[types.TransactionID]bool{}
+		for id := range pool.ids {
+			prev[id] = true
+		}
+		if gone > 0 {
+			r.Count("poolfull_evictions_observed", 1)
+			r.Count("poolfull_transactions_evicted", gone)
+			if minKept != nil && maxGone != nil && maxGone.Cmp(*minKept) > 0 {
+				r.Violation("eviction-not-by-fee", fmt.Sprintf("a transaction paying %v per weight unit was evicted while one paying %v was kept in the same eviction", *maxGone, *minKept), cs, nil)
+				return
+			}
+		}
+	}
+	r.Eval()
+	r.Distinct(fmt.Sprintf("poolfull/%d/%d", stream, len(subs)))
 }
